@@ -39,6 +39,10 @@ const (
 	streamOpened streamState = iota
 	streamClosed
 	streamHalfClosed
+	// streamHalfClosedLocal: Close() was called while OnData was running; the callback goroutine finishes the close.
+	// A state of its own (instead of half-closed plus a flag set afterwards) so that whoever finishes the close can never
+	// mistake a deferred local close for a close initiated by the peer.
+	streamHalfClosedLocal
 )
 
 const (
@@ -87,8 +91,6 @@ type Stream struct {
 	// when callback.OnData inner call stream.Close set this field
 	// after OnData return check state and call stream.Close again
 	callbackCloseState uint32
-	// set when Close() was deferred to the callback goroutine while the peer had not closed yet
-	localCloseDeferred uint32
 	// total bytes moved from pendingData into recvBuf, only touched by the reading side
 	movedInBytes uint64
 }
@@ -290,9 +292,7 @@ func (s *Stream) Close() error {
 		atomic.StoreUint32(&s.callbackCloseState, uint32(callbackWaitExit))
 	}
 	if atomic.LoadUint32(&s.callbackInProcess) == 1 {
-		if atomic.CompareAndSwapUint32(&s.state, uint32(streamOpened), uint32(streamHalfClosed)) {
-			atomic.StoreUint32(&s.localCloseDeferred, 1)
-		}
+		atomic.CompareAndSwapUint32(&s.state, uint32(streamOpened), uint32(streamHalfClosedLocal))
 		return nil
 	}
 
@@ -317,7 +317,7 @@ func (s *Stream) close() error {
 			s.asyncGoroutineWg.Wait()
 		}
 		s.clean()
-		if oldState == uint32(streamOpened) || atomic.LoadUint32(&s.localCloseDeferred) == 1 {
+		if oldState == uint32(streamOpened) || oldState == uint32(streamHalfClosedLocal) {
 			s.safeCloseNotify()
 			callback := s.getCallbacks()
 			if callback != nil {
@@ -483,8 +483,7 @@ func (s *Stream) fillDataToReadBuffer(buf bufferSliceWrapper) error {
 // the stream is open, or only the peer has closed it (data flushed before the peer's close must not be dropped).
 func (s *Stream) offerToCallback() bool {
 	state := s.getStreamState()
-	return state == uint32(streamOpened) ||
-		(state == uint32(streamHalfClosed) && atomic.LoadUint32(&s.localCloseDeferred) == 0)
+	return state == uint32(streamOpened) || state == uint32(streamHalfClosed)
 }
 
 // SetDeadline sets the read timeout for blocked and future Read calls.
